@@ -20,11 +20,13 @@ ASSUMPTIONS = ['balance tolerance 1e-6 m3/s = NewtonSolver residual tolerance (+
                'a run that does not converge or raises is inconclusive here and reported under C16']
 FLOORS = {'quick': {'conclusive': 40, 'distinct_nontrivial': 20,
                     'counters': {'junction_steps': 2000, 'tank_steps': 50, 'reservoir_steps': 100, 'dd_demand_checks': 500,
-                                 'pdd_junction_steps': 100, 'leak_node_steps': 20, 'parallel_pair_cases': 3}},
+                                 'pdd_junction_steps': 100, 'leak_node_steps': 20, 'parallel_pair_cases': 3,
+                                 'zeroed_junction_steps': 30, 'zeroed_leaky_junction_steps': 5}},
           'thorough': {'conclusive': 600, 'distinct_nontrivial': 300,
                        'counters': {'junction_steps': 40000, 'tank_steps': 1000, 'reservoir_steps': 2000,
                                     'dd_demand_checks': 10000, 'pdd_junction_steps': 2000, 'leak_node_steps': 400,
-                                    'parallel_pair_cases': 50}}}
+                                    'parallel_pair_cases': 50, 'zeroed_junction_steps': 500,
+                                    'zeroed_leaky_junction_steps': 80}}}
 CASE_TIMEOUT = {'quick': 120, 'thorough': 300}
 TOL = 1e-6 + 1e-9
 
@@ -41,6 +43,8 @@ def make_wn(c, rng):
         return wn, desc, ('example', desc['file'], desc['hyd'], desc['pattern_start'], desc['mode'])
     spec = gnet.gen_spec(rng, p_leak=0.12 if rng.random() < 0.5 else 0.0,
                          n_junc=(3, 14) if c.tier == 'quick' else (3, 40))
+    if c.index % 3 == 0:
+        gnet.add_isolation_schedule(spec, rng)
     wn = gnet.build(spec)
     return wn, {'spec': spec}, (gnet.signature(spec),)
 
@@ -93,6 +97,11 @@ def check_balance(c, wn, res, sample, prop='C01'):
                 c.count('pdd_junction_steps', len(times))
             if (abs(lk) > 0).any():
                 c.count('leak_node_steps', int((abs(lk) > 0).sum()))
+            zero = (tot == 0) & (d == 0)
+            if zero.any() and len(topo.incident(name)) > 0:
+                c.count('zeroed_junction_steps', int(zero.sum()))
+                if getattr(node, '_leak', False):
+                    c.count('zeroed_leaky_junction_steps', int(zero.sum()))
             bad = np.where(~(abs(resid) <= tol))[0]
             if len(bad):
                 i = int(bad[0])
